@@ -213,6 +213,39 @@ def run_case(case):
             c.close(float(np.asarray(sd.log_likelihood)), float(LL[idx].sum()), "dask_vs_numpy", f"acc_stats log_likelihood chunks {comp}", tags,
                     rtol=1e-12, scale=float(np.abs(LL[idx]).max()) * 2.0**-10)
             c.transitions += 3
+        # two lazy results evaluated in one graph (e.g. a log-likelihood ratio): each must still be its own value
+        import copy as _copy
+        import dask
+
+        m2 = _copy.deepcopy(m)
+        m2.means = np.asarray(m.means, float) + 0.5 * s
+        m2.variances = np.asarray(m.variances, float) * 2.0
+        B2 = X[[1 % n, 2 % n, 0, n - 1]]
+        A1 = da.from_array(B.copy(), chunks=((2, 2), (D,)))
+        A2 = da.from_array(B2.copy(), chunks=((2, 2), (D,)))
+        la, lb, lc = m.log_likelihood(A1), m2.log_likelihood(A1), m.log_likelihood(A2)
+        ra, rb, rc = dask.compute(la, lb, lc)
+        want_b = np.asarray(m2.log_likelihood(B))
+        want_c = np.asarray(m.log_likelihood(B2))
+        c.close(np.asarray(ra), LL[idx], "joint_graph", "log_likelihood computed together with other lazy results", tags, rtol=1e-12)
+        c.close(np.asarray(rb), want_b, "joint_graph", "second machine's log_likelihood computed in the same graph", tags, rtol=1e-12)
+        c.close(np.asarray(rc), want_c, "joint_graph", "same machine on a second array computed in the same graph", tags, rtol=1e-12)
+        c.close(np.asarray((la - lb).compute()), LL[idx] - want_b, "joint_graph", "lazy log-likelihood ratio", tags, rtol=1e-9, scale=float(np.abs(LL[idx]).max()))
+        c.transitions += 2
+    # the same visible parameters held by a MAP machine (whose prior has other variances): same density
+    if case.get("i", 0) % 2 == 1 or "stress" in case:
+        from bob.learn.em import GMMMachine
+
+        prior = GMMMachine(C, weights=np.full(C, 1.0 / C))
+        prior.means = mu + 1.0 * s
+        prior.variances = np.full((C, D), 3.0 * s * s)
+        mm = GMMMachine(C, trainer="map", ubm=prior)
+        mm.weights = np.array(m.weights, float)
+        mm.means = mu.copy()
+        mm.variance_thresholds = m.variance_thresholds
+        mm.variances = vis.copy()
+        c.close(np.asarray(mm.log_likelihood(X), float), want_ll, "map_machine_density", "log_likelihood of a MAP machine holding the same visible parameters", tags)
+        c.transitions += 1
     # normalisation: the implied density integrates to one (D = 1, moderate scale ratios)
     if D == 1 and vis.max() / vis.min() <= 2.0**14:
         sd_ = np.sqrt(vis[:, 0])
